@@ -19,6 +19,7 @@ import (
 	"github.com/ipfs/go-graphsync/donotsendfirstblocks"
 	"github.com/ipfs/go-graphsync/ipldutil"
 	gsmsg "github.com/ipfs/go-graphsync/message"
+	"github.com/ipfs/go-graphsync/panics"
 	"github.com/ipfs/go-graphsync/requestmanager/hooks"
 	"github.com/ipfs/go-graphsync/requestmanager/types"
 )
@@ -48,18 +49,36 @@ type ReconciledLoader interface {
 // It has control of requests when they are in the "running" state, while
 // the manager is in charge when requests are queued or paused
 type Executor struct {
-	manager    Manager
-	blockHooks BlockHooks
+	manager      Manager
+	blockHooks   BlockHooks
+	panicHandler panics.PanicHandler
+}
+
+// Option configures an Executor
+type Option func(*Executor)
+
+// PanicCallback sets a callback that is called with information about any panic
+// the executor recovers from while executing a request
+func PanicCallback(callbackFn panics.CallBackFn) Option {
+	return func(e *Executor) {
+		e.panicHandler = panics.MakeHandler(callbackFn)
+	}
 }
 
 // NewExecutor returns a new executor
 func NewExecutor(
 	manager Manager,
-	blockHooks BlockHooks) *Executor {
-	return &Executor{
-		manager:    manager,
-		blockHooks: blockHooks,
+	blockHooks BlockHooks,
+	options ...Option) *Executor {
+	e := &Executor{
+		manager:      manager,
+		blockHooks:   blockHooks,
+		panicHandler: panics.MakeHandler(nil),
 	}
+	for _, option := range options {
+		option(e)
+	}
+	return e
 }
 
 func (e *Executor) ExecuteTask(ctx context.Context, pid peer.ID, task *peertask.Task) bool {
@@ -80,7 +99,7 @@ func (e *Executor) ExecuteTask(ctx context.Context, pid peer.ID, task *peertask.
 	defer span.End()
 
 	log.Debugw("beginning request execution", "id", requestTask.Request.ID(), "peer", pid.String(), "root_cid", requestTask.Request.Root().String())
-	err := e.traverse(requestTask)
+	err := e.traverseRecovered(requestTask)
 	if err != nil {
 		span.RecordError(err)
 		if !ipldutil.IsContextCancelErr(err) {
@@ -113,6 +132,18 @@ type RequestTask struct {
 	InProgressErr        chan error
 	Empty                bool
 	ReconciledLoader     ReconciledLoader
+}
+
+// traverseRecovered runs the traversal for a request and converts a panic raised while
+// doing so (block loads and stores, block hooks) into an error for that request only,
+// so that a single request cannot take down the task worker and with it the process
+func (e *Executor) traverseRecovered(rt RequestTask) (err error) {
+	defer func() {
+		if rerr := e.panicHandler(recover()); rerr != nil {
+			err = rerr
+		}
+	}()
+	return e.traverse(rt)
 }
 
 func (e *Executor) traverse(rt RequestTask) error {
